@@ -41,7 +41,7 @@ class SimCrash(BaseException):
     """The simulated process died at this operation."""
 
 
-MUTATING = {"open-w", "write", "close-w", "mkdir", "replace", "unlink", "rmdir", "truncate", "chmod", "utime", "link", "symlink", "os-open-w", "os-write"}
+MUTATING = {"open-w", "write", "close-w", "mkdir", "replace", "unlink", "rmdir", "truncate", "chmod", "utime", "link", "symlink", "os-open-w", "os-write", "spawn"}
 
 ERRNOS = {
     "open-r": ["EACCES", "EMFILE", "ENOENT", "EIO"],
@@ -58,6 +58,7 @@ ERRNOS = {
     "stat": ["EACCES", "EIO"],
     "scandir": ["EACCES", "EIO"],
     "stdout.write": ["EPIPE", "ENOSPC"],
+    "spawn": ["ENOMEM", "EAGAIN"],
     "stdin.read": ["EIO"],
 }
 
@@ -295,6 +296,14 @@ class Interposer:
         os.write = os_write  # type: ignore[assignment]
         os.close = os_close  # type: ignore[assignment]
 
+        # process identity is environment too: code may branch on "am I root / the owner?"
+        self._id_saved = {}
+        if self.knobs.get("euid") is not None:
+            fake = int(self.knobs["euid"])
+            for nm in ("geteuid", "getuid", "getegid", "getgid"):
+                self._id_saved[nm] = getattr(os, nm)
+                setattr(os, nm, (lambda v=fake: v))
+
         def sim_open(file: Any, mode: str = "r", buffering: int = -1, encoding: Any = None, errors: Any = None, newline: Any = None, closefd: bool = True, opener: Any = None) -> Any:
             if not ip.active:
                 return _real_io_open(file, mode, buffering, encoding, errors, newline, closefd, opener)
@@ -312,6 +321,35 @@ class Interposer:
 
         io.open = sim_open  # type: ignore[assignment]
         builtins.open = sim_open  # type: ignore[assignment]
+
+        # helper processes (cp/mv via subprocess, os.system): one opaque mutating operation each
+        import subprocess as _sp
+
+        real_popen_init = _sp.Popen.__init__
+        real_system = os.system
+        ip._spawn_saved = (real_popen_init, real_system)
+
+        def popen_init(self_: Any, *a: Any, **kw: Any) -> None:
+            if not ip.active:
+                return real_popen_init(self_, *a, **kw)
+            o = ip.begin("spawn", ["<subprocess>"], argv=str(a[0] if a else kw.get("args"))[:200])
+            real_popen_init(self_, *a, **kw)
+            try:
+                self_.wait()  # the helper's effect belongs to this operation
+            except Exception:  # noqa: BLE001
+                pass
+            ip.end(o)
+
+        def system(cmd: Any) -> int:
+            if not ip.active:
+                return real_system(cmd)
+            o = ip.begin("spawn", ["<system>"], argv=str(cmd)[:200])
+            r = real_system(cmd)
+            ip.end(o)
+            return r
+
+        _sp.Popen.__init__ = popen_init  # type: ignore[method-assign]
+        os.system = system  # type: ignore[assignment]
         try:
             import shutil
 
@@ -325,6 +363,14 @@ class Interposer:
         self.active = False
         io.open = _real_io_open  # type: ignore[assignment]
         builtins.open = _real_builtins_open  # type: ignore[assignment]
+        for nm, fn in getattr(self, "_id_saved", {}).items():
+            setattr(os, nm, fn)
+        try:
+            import subprocess as _sp
+
+            _sp.Popen.__init__, os.system = self._spawn_saved  # type: ignore[method-assign]
+        except Exception:  # noqa: BLE001
+            pass
         for n in ("open", "close", "read", "write", "replace", "rename", "link", "symlink", "unlink", "remove", "rmdir", "mkdir", "truncate", "chmod", "utime", "stat", "lstat", "scandir", "listdir", "readlink", "access"):
             setattr(os, n, _REAL[n])
         try:
@@ -876,3 +922,9 @@ def build_tree(root: str, spec: dict[str, Any]) -> None:
     for rel, ent in spec.items():
         if "hl" in ent:  # hard link to another file of the spec
             _REAL["link"](os.path.join(root, ent["hl"]), os.path.join(root, rel))
+    for rel, ent in spec.items():
+        if ent.get("own") is not None:  # foreign owner (the harness runs as root)
+            try:
+                os.chown(os.path.join(root, rel), int(ent["own"]), int(ent["own"]), follow_symlinks=False)
+            except OSError:
+                pass
